@@ -1817,8 +1817,8 @@ class SampleSet(abc.Iterable, abc.Sized):
                                            bytes_type=bytes_type)
                    for name, data in self.data_vectors.items()}
 
-        # we never pack DISCRETE samplesets
-        pack_samples = pack_samples and self.vartype is not DISCRETE
+        # we only pack SPIN and BINARY samplesets (one bit per value)
+        pack_samples = pack_samples and (self.vartype is Vartype.SPIN or self.vartype is Vartype.BINARY)
 
         if pack_samples:
             # we could just do self.record.sample > 0 for all of these, but to
